@@ -20,6 +20,8 @@ use proptest::prelude::*;
 pub mod driver;
 #[path = "c01_faults.rs"]
 pub mod faults;
+#[path = "c01_gen.rs"]
+pub mod gen;
 
 pub use driver::{exercise, Args, Stats};
 use faults::{analyse, apply, seeds, Fault, Kind, RClass, Seed};
@@ -54,6 +56,16 @@ fn classify(stats: &Stats, rec: &mut Rec) {
     rec.set_nontrivial(stats.read_ok && stats.tables_ok >= 1 && stats.parsers_ok + stats.parsers_err >= 1);
 }
 
+/// driver arguments adapted to the seed a case was derived from
+fn args_for(seed: &Seed, base: &Args) -> Args {
+    let mut a = base.clone();
+    if !seed.tuples.is_empty() {
+        a.extra_tuples = seed.tuples.clone();
+    }
+    a.shape |= seed.shape;
+    a
+}
+
 fn run_bytes(bytes: &[u8], args: &Args, rec: &mut Rec) -> CaseResult {
     rec.artefact("font", bytes);
     rec.hash_bytes(bytes);
@@ -68,7 +80,10 @@ pub fn check_bytes(data: &[u8], rec: &mut Rec) -> CaseResult {
     if data.len() > 1 << 20 {
         return Ok(());
     }
-    let (_, res) = exercise(data, &Args::fixed(), rec);
+    let mut args = Args::fixed();
+    // layout tables present: shape lightly (kerning on)
+    args.shape = analyse(data).regions.iter().any(|r| r.class == RClass::Table && ["GSUB", "GPOS", "kern", "morx"].contains(&r.name.as_str()));
+    let (_, res) = exercise(data, &args, rec);
     res
 }
 
@@ -114,6 +129,31 @@ const TINY_QUICK: &[&str] = &[
     "gen:basic-vertical-kern",
     "gen:stored:fonts/woff2/test-font.woff2",
     "gen:stored:fonts/woff2/roundtrip-hmtx-lsb-001.woff2",
+    // one generated font per table kind / format (the remaining ones: thorough tier)
+    "gen:cmap-f2-big5",
+    "gen:cmap-f6-unicode",
+    "gen:cmap-f10-ucs4",
+    "gen:cmap-f12-ucs4",
+    "gen:cmap-f4-f12-f14-f0",
+    "gen:glyf-composites0",
+    "gen:glyf-chain",
+    "gen:var-0",
+    "gen:var-3",
+    "gen:cff-name",
+    "gen:cff-cid-a",
+    "gen:cff-cid-b",
+    "gen:cff2-static",
+    "gen:cff2-var2",
+    "gen:gsub-0",
+    "gen:gpos-0",
+    "gen:gpos-2-kern",
+    "gen:c02:synthetic/kern-only",
+    "gen:c02:synthetic/morx",
+    "gen:c02:synthetic/multi-script:arab",
+    "gen:stored:gen:woff2-coll0",
+    "gen:stored:gen:woff2-xf0",
+    "gen:bitmap-ebdt",
+    "gen:bitmap-cbdt",
 ];
 
 const TINY_THOROUGH: &[&str] = &[
@@ -140,6 +180,7 @@ const CMAP_SEEDS: &[&str] = &[
 ];
 
 const STRUCTURAL: &[&str] = &[
+    "GSUB", "GPOS", "GDEF", "morx", "cvt ", "EBLC", "EBDT", "CBLC", "CBDT",
     "cmap", "CFF ", "CFF2", "fvar", "gvar", "HVAR", "MVAR", "STAT", "avar", "loca", "post", "sbix", "SVG ", "kern",
     "glyf", "name", "cvar",
 ];
@@ -151,6 +192,13 @@ fn field_plan(thorough: bool) -> Vec<FieldItem> {
     let mut full: Vec<usize> = TINY_QUICK.iter().filter_map(|n| find(n)).collect();
     if thorough {
         full.extend(TINY_THOROUGH.iter().filter_map(|n| find(n)));
+        // every generated per-format seed
+        for (i, s) in all.iter().enumerate() {
+            let generated = ["gen:cmap-", "gen:glyf-", "gen:var-", "gen:cff", "gen:gsub-", "gen:gpos-", "gen:c02:", "gen:stored:gen:", "gen:bitmap-"].iter().any(|p| s.name.starts_with(p));
+            if generated && !full.contains(&i) {
+                full.push(i);
+            }
+        }
     }
     let cmap_only: Vec<usize> = CMAP_SEEDS.iter().filter_map(|n| find(n)).collect();
     for (si, only_cmap) in full.iter().map(|s| (*s, false)).chain(cmap_only.iter().map(|s| (*s, true))) {
@@ -202,7 +250,7 @@ fn field_plan(thorough: bool) -> Vec<FieldItem> {
         // byte-granular sweep of the tables whose fields are not 16-bit aligned (CFF INDEX
         // offSize/offsets, DICT operands, charstrings, packed gvar data, glyph flags)
         for r in l.regions.iter().filter(|r| r.class == RClass::Table) {
-            let bytewise = ["CFF ", "CFF2", "gvar", "glyf", "cmap", "post", "SVG ", "sbix", "cvar", "HVAR", "MVAR"];
+            let bytewise = ["CFF ", "CFF2", "gvar", "glyf", "cmap", "post", "SVG ", "sbix", "cvar", "HVAR", "MVAR", "kern", "morx", "EBLC", "EBDT", "CBLC", "CBDT"];
             let in_woff2 = l.kind == Kind::Woff2 && ["glyf", "loca", "hmtx", "head", "maxp", "hhea"].contains(&r.name.as_str());
             if !(bytewise.contains(&r.name.as_str()) || in_woff2) || (only_cmap && r.name != "cmap") {
                 continue;
@@ -346,7 +394,7 @@ fn field_case(item: &FieldItem, args: &Args, rec: &mut Rec) -> CaseResult {
     }
     rec.sample(|| item.what.clone());
     rec.class(&format!("fields:{}", s.name.rsplit('/').next().unwrap_or("?")));
-    run_bytes(&bytes, args, rec)
+    run_bytes(&bytes, &args_for(s, args), rec)
 }
 
 // ------------------------------------------------------------------------------------------
@@ -402,6 +450,7 @@ impl ArgSpec {
             ppem: self.ppem,
             coords: self.coords.clone(),
             name_ids: self.name_ids.clone(),
+            extra_tuples: Vec::new(),
             shape: self.shape,
             heavy: self.heavy,
         }
@@ -506,7 +555,7 @@ fn fault_case(c: &FaultCase, rec: &mut Rec) -> CaseResult {
     rec.class(seed_group(s));
     rec.class(&format!("nfaults:{}", c.faults.len()));
     rec.sample(|| format!("{} [{} B] {}", s.name, bytes.len(), descs.join("; ")));
-    run_bytes(&bytes, &c.args.resolve(), rec)
+    run_bytes(&bytes, &args_for(s, &c.args.resolve()), rec)
 }
 
 #[derive(Clone, Debug)]
@@ -566,7 +615,7 @@ fn container_case(c: &ContainerCase, rec: &mut Rec) -> CaseResult {
     }
     rec.class(&format!("ckind:{}", analyse(&bytes).kind.as_str()));
     rec.sample(|| format!("{} [{} B] {}", s.name, bytes.len(), descs.join("; ")));
-    run_bytes(&bytes, &c.args.resolve(), rec)
+    run_bytes(&bytes, &args_for(s, &c.args.resolve()), rec)
 }
 
 impl Property for C01 {
@@ -600,13 +649,39 @@ impl Property for C01 {
         if all.len() < 20 {
             ctx.note(format!("only {} seeds found under $VERIF_REPO/tests", all.len()));
         }
+        if let Some(path) = std::env::var_os("C01_LIST_SEEDS") {
+            // debugging aid: seed inventory (index, kind, size, name)
+            let lines: Vec<String> = all
+                .iter()
+                .enumerate()
+                .map(|(i, s)| {
+                    let mut line = format!("{} {} {} {}", i, s.kind.as_str(), s.bytes.len(), s.name);
+                    if s.name.starts_with("gen:") && std::env::var_os("C01_SEED_STATS").is_some() {
+                        let mut rec = Rec::for_fuzz();
+                        let (st, r) = exercise(&s.bytes, &args_for(s, &Args::fixed()), &mut rec);
+                        line.push_str(&format!(
+                            " | font_ok={} parsers={}/{} cmap={} outl={}/{} img={} subset={}/{} whole={} inst={}/{} shaped={} res={:?}",
+                            st.font_ok, st.parsers_ok, st.parsers_err, st.cmap_subtables_ok, st.outlines_ok, st.outlines_err, st.images_ok, st.subset_ok, st.subset_err, st.whole_ok, st.instance_ok, st.instance_err, st.shaped, r.err().map(|f| f.sig)
+                        ));
+                    }
+                    line
+                })
+                .collect();
+            let _ = std::fs::write(&path, lines.join("\n"));
+            if let Some(dir) = std::env::var_os("C01_DUMP_SEEDS") {
+                let _ = std::fs::create_dir_all(&dir);
+                for (i, s) in all.iter().enumerate().filter(|(_, s)| s.name.starts_with("gen:")) {
+                    let _ = std::fs::write(std::path::Path::new(&dir).join(format!("{:03}.bin", i)), &s.bytes);
+                }
+            }
+        }
         let fixed = Args::fixed();
         // 1. intact seeds
         ctx.enumerate("intact", all.len() as u64, true, |i, rec| {
             let s = &all[i as usize];
             rec.class(seed_group(s));
             rec.sample(|| format!("{} intact", s.name));
-            run_bytes(&s.bytes, &fixed, rec)
+            run_bytes(&s.bytes, &args_for(s, &fixed), rec)
         });
         // 2. field-directed enumeration (seed independent; exhaustive over its finite space)
         let plan = field_plan(ctx.thorough());
@@ -621,11 +696,13 @@ impl Property for C01 {
             // heavy arguments on every 4th item keep the sweep fast
             field_case(item, if idx % 4 == 0 { &fixed } else { &light }, rec)
         });
+        // debugging aid: C01_FIELDS_ONLY=1 runs the enumerations without the random sections
+        let fields_only = std::env::var_os("C01_FIELDS_ONLY").is_some();
         // 3. random structured faults
-        let n = ctx.cases(200_000, 3_000_000);
+        let n = if fields_only { 0 } else { 1 } * ctx.cases(200_000, 3_000_000);
         ctx.section("faults", n, fault_case_strategy(), fault_case);
         // 4. container headers and directories
-        let n = ctx.cases(60_000, 1_000_000);
+        let n = if fields_only { 0 } else { 1 } * ctx.cases(60_000, 1_000_000);
         ctx.section("containers", n, container_case_strategy(), container_case);
     }
 }
